@@ -1,6 +1,6 @@
 #!/bin/bash
 # seedsave.sh <ID> <name> "<needs>" : copy a confirmed seeded change from /tmp/seed/<ID> into /verif/seeded/<name>/
-ID=$1; NAME=$2; NEEDS=$3; W=/tmp/seed/$ID; D=/verif/seeded/$NAME
+ID=$1; NAME=$2; NEEDS=$3; W=${SEEDROOT:-/tmp/seed}/$ID; D=/verif/seeded/$NAME
 mkdir -p $D
 cp $W/change.patch $D/patch.diff
 for f in DEMO.md demo.bn demo.expected demo.stdin demo.observed_with_change; do [ -f $W/$f ] && cp $W/$f $D/; done
